@@ -371,7 +371,9 @@ contract(
             ),
         )
     ],
-    returns=lambda self: Build(f"{GEOM}:BoundingBox", Int(), Int(), Int(), Int(), CRSShape(None)),
+    # structured result: the very floor/ceil terms (shared with every other floor of the same
+    # coordinate on the path), so callers need no integer reasoning to identify them
+    returns=lambda self: Build(f"{GEOM}:BoundingBox", Value(floor(self.left)), Value(floor(self.bottom)), Value(ceil(self.right)), Value(ceil(self.top)), Value(self.crs)),
 )
 
 # ---- pixel_translation ----------------------------------------------------------------------------------------
@@ -607,6 +609,136 @@ lemma(
     body=_lemma_snap_to,
     unstub=[f"{GBX}:GeoBox.snap_to"],
     ghost_args={f"{GBX}:pixel_translation": lambda t, shape: dict(t=(-t[0], -t[1]), sa=None)},
+)
+
+# ---- enclosing ----------------------------------------------------------------------------------------------------
+#
+# The region's image in the pixel plane of `self` is a ghost: its bounding box [px0, px1] x [py0, py1].
+# GeoBox.project (shapely transform + pyproj when the CRSs differ) is ASSUMED to return that image; the
+# stand-in region answers `project` only for itself -- anything derived from it (its envelope, its
+# bounding box polygon) has a different, larger-or-equal, unconstrained image.
+
+
+class PixImage:
+    """stand-in for the pixel-plane Geometry returned by GeoBox.project"""
+
+    def __init__(self, bb):
+        self.boundingbox = bb
+        self.crs = None
+
+
+class RegionWithImage:
+    """stand-in Geometry with a CRS whose image under `owner.project` has the given pixel bounding box"""
+
+    def __init__(self, owner, px, crs, exact=True):
+        self.owner, self.px, self.crs, self.exact = owner, px, crs, exact
+
+    def _bigger(self, why):
+        c = __import__("pyvc.sym", fromlist=["ctx"]).ctx()
+        x0, y0, x1, y1 = self.px
+        q = [c.fresh_real(f"{why}.{n}") for n in ("x0", "y0", "x1", "y1")]
+        c.assume(And(q[0] <= x0, q[1] <= y0, q[2] >= x1, q[3] >= y1))
+        return RegionWithImage(self.owner, tuple(q), self.crs, exact=False)
+
+    @property
+    def envelope(self):
+        return self._bigger("envelope")
+
+    @property
+    def polygon(self):
+        return self
+
+    @property
+    def convex_hull(self):
+        return self
+
+    def __vc_src__(self, model, c):
+        from pyvc.engine import to_src
+
+        return f"R('contracts.geobox_c:native_region')({to_src(self.owner, model, c)}, {', '.join(to_src(v, model, c) for v in self.px)})"
+
+
+def native_region(g, px0, py0, px1, py1):
+    """a real triangle whose image in g's pixel plane has exactly this bounding box"""
+    from odc.geo.geom import polygon
+
+    pts = [(px0, py0), (px1, py0), ((px0 + px1) / 2, py1), (px0, py0)]
+    return polygon([g.affine * p for p in pts], g.crs)
+
+
+def _mk_region(self, px0, py0, px1, py1):
+    if symbolic():
+        return RegionWithImage(self, (px0, py0, px1, py1), self.crs)
+    return native_region(self, px0, py0, px1, py1)
+
+
+contract(
+    f"{GBX}:GeoBoxBase.project",
+    ["C16"],
+    inputs=dict(self=GEOBOX(), g=Custom(lambda nm: None, "region")),
+    returns=lambda self, g: Value(PixImage(repo(GEOM).BoundingBox(*g.px, None))) if isinstance(g, RegionWithImage) and g.owner is self else Custom(lambda nm: (_ for _ in ()).throw(Unsupported("GeoBox.project of an object that is not the stand-in region")), "n/a"),
+    verify=False,
+    trusted_reason="shapely affine transform (+ pyproj when the CRSs differ): assumed to return the region's image in the pixel plane; the stub hands back the ghost image of the stand-in region",
+)
+
+
+def _enclosing_grid(self, px0, py0, px1, py1, result):
+    # on the source grid: a whole-pixel translation of self, same CRS
+    return And(aff_eq(result.affine, self.affine * T_(floor(px0), floor(py0))), result.crs is self.crs)
+
+
+def _enclosing_covers(self, px0, py0, px1, py1, result):
+    tx, ty = floor(px0), floor(py0)
+    nx, ny = result.shape.x, result.shape.y
+    return And(nx >= 1, ny >= 1, tx <= px0, ty <= py0, tx + nx >= px1, ty + ny >= py1)
+
+
+def _enclosing_tight(self, px0, py0, px1, py1, result):
+    # a region whose span rounds to no pixel at all gets one pixel
+    tx, ty = floor(px0), floor(py0)
+    nx, ny = result.shape.x, result.shape.y
+    return And(px0 - tx < 1, py0 - ty < 1, Or(tx + nx - px1 < 1, And(nx == 1, px1 == tx)), Or(ty + ny - py1 < 1, And(ny == 1, py1 == ty)))
+
+
+def _enclosing_oracle(args, run):
+    """native: the region's pixel image computed independently with the affine package"""
+    import math
+
+    import shapely
+
+    g, region = args["self"], args["region"]
+    kind, r = run()
+    if kind == "raise":
+        return [f"no-exception:{type(r).__name__}"]
+    pts = [(~g.affine) * (x, y) for x, y in shapely.get_coordinates(region.geom).tolist()]
+    px0, px1 = min(p[0] for p in pts), max(p[0] for p in pts)
+    py0, py1 = min(p[1] for p in pts), max(p[1] for p in pts)
+    fails = []
+    t = (~g.affine) * r.affine
+    tx, ty = t.c, t.f
+    eps = 1e-6
+    if not (abs(t.a - 1) < 1e-9 and abs(t.e - 1) < 1e-9 and abs(t.b) < 1e-9 and abs(t.d) < 1e-9 and abs(tx - round(tx)) < eps and abs(ty - round(ty)) < eps):
+        fails.append("post:on the source grid")
+    nx, ny = r.shape.x, r.shape.y
+    if not (tx <= px0 + eps and ty <= py0 + eps and tx + nx >= px1 - eps and ty + ny >= py1 - eps):
+        fails.append("post:covers the region")
+    if not (px0 - tx < 1 + eps and py0 - ty < 1 + eps and (tx + nx - px1 < 1 + eps or nx == 1) and (ty + ny - py1 < 1 + eps or ny == 1)):
+        fails.append(f"post:exceeds the region by less than one pixel per side (region px [{px0:.3f},{px1:.3f}]x[{py0:.3f},{py1:.3f}], result origin ({tx:.3f},{ty:.3f}) shape {nx}x{ny})")
+    return fails
+
+
+contract(
+    f"{GBX}:GeoBox.enclosing",
+    ["C16"],
+    inputs=dict(self=GEOBOX(), px0=Real(), py0=Real(), px1=Real(), py1=Real(), region=Derived(_mk_region, "region whose pixel image is [px0,px1]x[py0,py1]")),
+    requires=[lambda self, px0, py0, px1, py1: And(px0 <= px1, py0 <= py1, _nondegenerate(self))],
+    ensures=[
+        ("lies on the source grid (whole-pixel translation of self, same CRS)", _enclosing_grid),
+        ("covers the region", _enclosing_covers),
+        ("exceeds the region by less than one pixel per side", _enclosing_tight),
+    ],
+    native_oracle=_enclosing_oracle,
+    note="the region is a stand-in whose image in the pixel plane is a ghost rectangle (any region, any CRS: the projection itself is assumed); natively a real triangle with that image",
 )
 
 # =====================================================================================================
